@@ -9,6 +9,7 @@
 #include "public/module/structs/itr.h"
 #include "log.h"
 #include "mem.h"
+#include "verif_hooks.h"
 #include <stdatomic.h>
 
 #define M_THREADS_ASSERT(pool, ret) \
@@ -55,8 +56,10 @@ static void *thpool_thread(void *thpool) {
     m_thpool_t *pool = (m_thpool_t *)thpool;
     
     while (true) {
+        VERIF_POINT(VP_THPOOL_WORKER_TOP, pool);
         /* Lock must be taken to wait on conditional variable */
         pthread_mutex_lock(&(pool->lock));
+        VERIF_POINT(VP_THPOOL_WORKER_LOCKED, pool);
         
         /* 
          * Wait on condition variable, check for spurious wakeups.
@@ -64,6 +67,7 @@ static void *thpool_thread(void *thpool) {
          */
         while (m_queue_len(pool->tasks) == 0 && pool->shutdown == SHUTDOWN_NO) {
             pthread_cond_wait(&(pool->notify), &(pool->lock));
+            VERIF_POINT(VP_THPOOL_WORKER_WOKEN, pool);
         }
 
         /*
@@ -78,15 +82,18 @@ static void *thpool_thread(void *thpool) {
 
         /* Pool is no more used, unlock mutex */
         pthread_mutex_unlock(&(pool->lock));
+        VERIF_POINT(VP_THPOOL_WORKER_DEQUEUED, pool);
 
         /* Actually call the task fn and then unref task */
         pool->running_tasks++;
         task->fn(task->arg);
         memhook._free(task);
         pool->running_tasks--;
+        VERIF_POINT(VP_THPOOL_WORKER_TASK_DONE, pool);
     }
     
     pthread_mutex_unlock(&(pool->lock));
+    VERIF_POINT(VP_THPOOL_WORKER_EXIT, pool);
     return NULL;
 }
 
@@ -100,11 +107,13 @@ static int wait_pool(m_thpool_t *pool, thpool_shutdown_t shutdown) {
 
     /* Wake up all worker threads and unlock mutex */
     ret = pthread_cond_broadcast(&pool->notify) + pthread_mutex_unlock(&pool->lock);
+    VERIF_POINT(VP_THPOOL_SHUTDOWN_SET, pool);
     if (ret == 0) {
         if (!(pool->flags & M_THPOOL_DETACHED)) {
             /* Join all worker threads */
             m_itr_foreach(pool->threads, {
                 pthread_t *th = m_itr_get(m_itr);
+                VERIF_POINT(VP_THPOOL_BEFORE_JOIN, pool);
                 ret += pthread_join(*th, NULL);
             });
         }
@@ -133,6 +142,7 @@ static int add_threads(m_thpool_t *pool, int num) {
         err = pthread_create(th, &tattr, thpool_thread, (void *) pool);
         if (err == 0) {
             m_list_insert(pool->threads, th);
+            VERIF_POINT(VP_THPOOL_THREAD_CREATED, pool);
         } else {
             memhook._free(th);
         }
@@ -200,6 +210,7 @@ _public_ int m_thpool_add(m_thpool_t *pool, m_thpool_task task, void *arg) {
     if (ret) {
         return ret;
     }
+    VERIF_POINT(VP_THPOOL_ADD_LOCKED, pool);
 
     /*
      * Lazy thread algorithm:
@@ -221,6 +232,7 @@ _public_ int m_thpool_add(m_thpool_t *pool, m_thpool_task task, void *arg) {
     new_task->fn = task;
     new_task->arg = arg;
     m_queue_enqueue(pool->tasks, new_task);
+    VERIF_POINT(VP_THPOOL_ADD_BEFORE_SIGNAL, pool);
     ret = pthread_cond_signal(&pool->notify);
 
     const int unlock_ret = pthread_mutex_unlock(&pool->lock);
@@ -281,6 +293,7 @@ _public_ int m_thpool_free(m_thpool_t **pool, bool wait_all) {
     int ret = 0;
 
     for (int i = (p->init_state + 1) >> 1; i > 0 && ret == 0; i >>= 1) {
+        VERIF_POINT(VP_THPOOL_FREE_STAGE, p);
         switch (i) {
         case INITED_STARTED:
             ret = wait_pool(p, wait_all ? SHUTDOWN_WAITALL : SHUTDOWN_WAITCURR);
@@ -305,3 +318,12 @@ _public_ int m_thpool_free(m_thpool_t **pool, bool wait_all) {
     *pool = NULL;
     return 0;
 }
+
+#ifdef FEDEDP_LIBMODULE_VERIF
+/* Verification only: wake every waiting worker without changing the predicate (spurious wake-up) */
+_public_ void fededp_verif_thpool_kick(m_thpool_t *pool) {
+    pthread_mutex_lock(&pool->lock);
+    pthread_cond_broadcast(&pool->notify);
+    pthread_mutex_unlock(&pool->lock);
+}
+#endif
